@@ -583,13 +583,28 @@ impl Task for ExternalEquivalenceTask {
         let right = control_translate(theory_translate(self.program));
 
         // TODO: Warn when a conflict between private predicates is encountered
-        // TODO: Check if renaming creates new conflicts
-        let right = right.rename_predicates(
-            &specification_private_predicates
-                .intersection(&program_private_predicates)
-                .map(|p| (p.clone(), "p".to_string()))
-                .collect(),
-        );
+        // Choose a name extension that does not collide with any predicate of the task
+        let mut taken_names: IndexSet<fol::Predicate> = public_predicates.clone();
+        taken_names.extend(specification_private_predicates.iter().cloned());
+        taken_names.extend(program_private_predicates.iter().cloned());
+        let mut renaming = IndexMap::new();
+        for p in specification_private_predicates.intersection(&program_private_predicates) {
+            let mut extension = "p".to_string();
+            let mut counter = 0;
+            while taken_names.contains(&fol::Predicate {
+                symbol: format!("{}_{}", p.symbol, extension),
+                arity: p.arity,
+            }) {
+                counter += 1;
+                extension = format!("p{counter}");
+            }
+            taken_names.insert(fol::Predicate {
+                symbol: format!("{}_{}", p.symbol, extension),
+                arity: p.arity,
+            });
+            renaming.insert(p.clone(), extension);
+        }
+        let right = right.rename_predicates(&renaming);
 
         let mut user_guide_assumptions = Vec::new();
         for formula in self.user_guide.formulas() {
